@@ -35,19 +35,31 @@ fn fwd(op: &Op, _ctx: &dyn Context, operands: &mut dyn CoordinateSet) -> usize {
         // The longitude step corresponding to a 1 m linear step along the local parallel
         let dlon = (lat.cos() * ellps.prime_vertical_radius_of_curvature(lat)).recip();
 
-        let Some(origin) = grids_at(grids, &coord, use_null_grid) else {
-            operands.set_coord(i, &Coor4D::nan());
-            continue;
-        };
-
-        coord[1] += dlat;
-        let Some(lat_1) = grids_at(grids, &coord, use_null_grid) else {
-            operands.set_coord(i, &Coor4D::nan());
-            continue;
-        };
-        coord[1] = lat;
-        coord[0] += dlon;
-        let Some(lon_1) = grids_at(grids, &coord, use_null_grid) else {
+        // The three look-ups behind one deflection must be served by the same grid:
+        // the difference between the heights of two different geoid models (or of a
+        // geoid model and the null grid) says nothing about the slope of any of them.
+        // So we use the first grid able to answer all three (then the first one
+        // able to do so within its half-cell margin), rather than `grids_at`
+        let north = Coor4D([lon, lat + dlat, coord[2], coord[3]]);
+        let east = Coor4D([lon + dlon, lat, coord[2], coord[3]]);
+        let mut heights = None;
+        'grids: for margin in [0.0, 0.5] {
+            for grid in grids.iter() {
+                if let (Some(o), Some(n), Some(e)) = (
+                    grid.at(&coord, margin),
+                    grid.at(&north, margin),
+                    grid.at(&east, margin),
+                ) {
+                    heights = Some((o, n, e));
+                    break 'grids;
+                }
+            }
+        }
+        // The null grid: a geoid without slopes (but it cannot tell where a NaN is)
+        if heights.is_none() && use_null_grid && !lat.is_nan() && !lon.is_nan() {
+            heights = Some((Coor4D::origin(), Coor4D::origin(), Coor4D::origin()));
+        }
+        let Some((origin, lat_1, lon_1)) = heights else {
             operands.set_coord(i, &Coor4D::nan());
             continue;
         };
